@@ -150,6 +150,14 @@ class SpecEval:
                 return VBool(self.neg().b(n.args[0]) == self.neg().b(n.args[1]))
             if f == 'ite':
                 return merge(self.neg().b(n.args[0]), self.neg().ev(n.args[1]), self.neg().ev(n.args[2]))
+            if f == 'using':
+                # using(H, body): H is a lemma instance; it is proved as a side obligation
+                # and may then be used for body (goal mode); in assumptions it is just body
+                if not self.goal:
+                    return self.ev(n.args[1])
+                h = self.neg().b(n.args[0])
+                self.eng.side_goals.append((h, ast.unparse(n.args[0])))
+                return VBool(z3.Implies(h, self.b(n.args[1])))
             if f == 'len':
                 v = self.ev(n.args[0])
                 return VInt(length_of(self.eng, self.st, v))
